@@ -312,16 +312,20 @@ Fixpoint has_default (t : ty) : bool :=
   | TUnit _ => true
   | TRaw _ => false
   | TText XString | TText XBytes | TText XBytesMut | TText XAsciiString => true
+  | TText XStr => true                (* behind Box / Rc / Arc / Cow: the empty string *)
   | TText _ => false
   | TSeq SSlice _ => false
   | TSeq _ _ => true
   | TArray n t' => (n <=? 32) && has_default t'
   | TProd PTuple ts =>
       (Nat.leb (length ts) 12) && forallb (fun x => has_default x) ts
+  | TProd (PStruct _ _ _) ts =>        (* [#[derive(Default)]] on the struct: every field at its Default, which is what
+                                          [default_of] returns; a hand-written [impl Default] is outside the model *)
+      forallb (fun x => has_default x) ts
   | TProd _ _ => false
   | TSum KOption _ => true
-  | TSum _ _ => false
-  | TWrap WBox t' | TWrap WRc t' | TWrap WArc t' | TWrap WCell t' | TWrap WRefCell t' => has_default t'
+  | TSum _ _ => false                  (* enums: [#[default]] may name any variant *)
+  | TWrap WBox t' | TWrap WRc t' | TWrap WArc t' | TWrap WCell t' | TWrap WRefCell t' | TWrap WCow t' => has_default t'
   | TWrap _ _ => false
   end.
 
